@@ -101,6 +101,8 @@ def main(argv=None):
     findings = load_findings()
 
     if args.replay:
+        from mc import kernel
+        kernel.MAX_PER_SIGNATURE = 10 ** 6  # replays re-run a family and pick the case: keep everything
         with open(args.replay) as f:
             doc = json.load(f)
         v = mod.replay(doc["case"])
@@ -124,12 +126,16 @@ def main(argv=None):
     new, known = [], {}
     for v in tally.violations:
         kf = match_finding(prop, v.get("sig", {}), findings)
+        n = tally.sig_counts.get(json.dumps(v.get("sig", {}), sort_keys=True), 1)
         if kf:
-            known.setdefault(kf["id"], [kf, 0])[1] += 1
+            ent = known.setdefault(kf["id"], [kf, 0, set()])
+            key = json.dumps(v.get("sig", {}), sort_keys=True)
+            if key not in ent[2]:
+                ent[2].add(key)
+                ent[1] += n
         else:
             new.append(v)
-    # violations beyond the per-tally cap could not be matched individually: conservative
-    unmatched_overflow = max(0, tally.n_violations - len(tally.violations))
+    unmatched_overflow = 0
 
     coverage = dict(res["coverage"])
     coverage.setdefault("evaluations", tally.evals)
@@ -144,7 +150,7 @@ def main(argv=None):
         coverage["exhaustive"] = False
     if tally.notes:
         coverage["notes"] = tally.notes
-    coverage["known_findings_seen"] = {k: n for k, (_, n) in known.items()}
+    coverage["known_findings_seen"] = {k: e[1] for k, e in known.items()}
     write_evidence(prop, args.tier, seed, res["level"], coverage, res.get("assumptions", []), wall,
                    len(new) + (unmatched_overflow if new else 0))
 
@@ -152,7 +158,7 @@ def main(argv=None):
           f"distinct_nontrivial={coverage['distinct_nontrivial']} "
           f"states={coverage.get('states', '-')} transitions={coverage.get('transitions', '-')} "
           f"outcome_classes={len(tally.outcomes)} exhaustive={coverage.get('exhaustive')}")
-    for k, (kf, n) in sorted(known.items()):
+    for k, (kf, n, _) in sorted(known.items()):
         print(f"KNOWN-FINDING: property={prop} {kf['id']}: {kf['what']} ({n} cases this run)")
     if not new:
         return 0
@@ -168,7 +174,7 @@ def main(argv=None):
                 break
             path = write_replay(prop, v, mod)
             written += 1
-            print(f"  signature={key} ({len(vs)} cases) note={v.get('note', '')[:200]}")
+            print(f"  signature={key} ({tally.sig_counts.get(key, len(vs))} cases) note={v.get('note', '')[:200]}")
             print(f"VIOLATION property={prop} replay={path}")
     print(f"[{prop}] {tally.n_violations} violating cases in {len(seen_sigs)} signature classes")
     return 1
